@@ -982,7 +982,9 @@ package wire
 //@   ensures [exact-consume] {C03} (err == nil && ret0 == conn) ==> reader.Buffer.#pos == (#rawN > old(#rawN) ? sbe32(reader.Buffer, 0) : 0) + 8 + len(reader.Msg)
 //@   ensures [fresh-reader] {C15 C11} reader != nil ==> (fresh(reader) && fresh(reader.Buffer) && (reader.Msg == nil || arr(reader.Msg) > old(#alloc)))
 //@   ensures [out-silent] OutSame()
-//@   modifies #maxalloc, #nalloc, #rawN, #rawLast, #rawConn
+//@   ghostset #transport = val(ret0) if err == nil
+//@   ghostset #hsVersion = (err == nil ? version : 0)
+//@   modifies #maxalloc, #nalloc, #rawN, #rawLast, #rawConn, #transport, #hsVersion
 
 //@ func (*Server).handleAuth
 //@   props C01 C12 C04
@@ -1026,19 +1028,19 @@ package wire
 //@   requires [no-locks-held] {C16} srv.admission.#rheld == 0 && !srv.admission.#wheld && srv.wg.#held == 0
 //@   requires [version-text] {C02} nulfree(srv.Version)
 //@   ensures [closes] {C01 C19} #connClosed >= old(#connClosed) + 1
-//@   callsite buffer.NewWriter [writer-on-upgraded] {C11} $writer == box(conn)
-//@   callsite (*wire.Server).readClientParameters [reads-on-upgraded] {C11} $reader == reader && reader.Buffer.#src == val(conn)
-//@   callsite (*wire.Server).handleAuth [auth-on-upgraded] {C11 C01} $reader == reader && $writer == writer && #nOut == old(#nOut) && #nParse == old(#nParse)
-//@   callsite (*wire.Server).handleAuth [writes-on-upgraded] {C11} $writer.Writer == box(conn)
-//@   callsite (*wire.Server).writeParameters [writes-on-upgraded] {C11} $writer.Writer == box(conn)
+//@   callsite buffer.NewWriter [writer-on-upgraded] {C11} val($writer) == #transport
+//@   callsite (*wire.Server).readClientParameters [reads-on-upgraded] {C11} $reader.Buffer.#src == #transport
+//@   callsite (*wire.Server).handleAuth [auth-on-upgraded] {C11 C01} $reader.Buffer.#src == #transport && #nOut == old(#nOut) && #nParse == old(#nParse)
+//@   callsite (*wire.Server).handleAuth [writes-on-upgraded] {C11} val($writer.Writer) == #transport
+//@   callsite (*wire.Server).writeParameters [writes-on-upgraded] {C11} val($writer.Writer) == #transport
 //@   callsite (*wire.Server).writeParameters [no-reply-before-session] {C10 C01} #nE == old(#nE) && #nZ == old(#nZ)
 //@   ensures [terminate-once] {C19} #nTerminate <= old(#nTerminate) + 1
-//@   callsite (*wire.Session).consumeCommands [writes-on-upgraded] {C11} $writer.Writer == box(conn) && $conn == conn
-//@   callsite (*wire.Server).writeParameters [authed-before-params] {C01 C12} #nAccept == old(#nAccept) + 1 && #nZ == old(#nZ) && $params == srv.Parameters && $writer == writer
+//@   callsite (*wire.Session).consumeCommands [writes-on-upgraded] {C11} val($writer.Writer) == #transport && val($conn) == #transport && $reader.Buffer.#src == #transport
+//@   callsite (*wire.Server).writeParameters [authed-before-params] {C01 C12} #nAccept == old(#nAccept) + 1 && #nZ == old(#nZ) && $params == srv.Parameters
 //@   callsite callback:wire.SessionHandler [session-once-after-auth] {C19 C01} #nAccept == old(#nAccept) + 1 && #nSession == old(#nSession) && #nZ == old(#nZ) && $self == srv.Session
-//@   callsite (*wire.Session).consumeCommands [session-before-commands] {C19 C01 C12} #nAccept == old(#nAccept) + 1 && #nSession == old(#nSession) + 1 && #sessErrTag == 0 && val($ctx) == #sessCtx && #nZ == old(#nZ) && #nParse == old(#nParse) && #nExec == old(#nExec) && $reader == reader && $writer == writer && $conn == conn
+//@   callsite (*wire.Session).consumeCommands [session-before-commands] {C19 C01 C12} #nAccept == old(#nAccept) + 1 && #nSession == old(#nSession) + 1 && #sessErrTag == 0 && val($ctx) == #sessCtx && #nZ == old(#nZ) && #nParse == old(#nParse) && #nExec == old(#nExec)
 //@   callsite callback:wire.Server.Statements [fresh-caches] {C07 C15} true
-//@   atreturn [cancel-silent] {C12} version == 80877102 ==> (OutSame() && #nParse == old(#nParse) && #nExec == old(#nExec) && #nSession == old(#nSession) && #nAccept == old(#nAccept) && #nValidate == old(#nValidate))
+//@   ensures [cancel-silent] {C12} #hsVersion == 80877102 ==> (OutSame() && #nParse == old(#nParse) && #nExec == old(#nExec) && #nSession == old(#nSession) && #nAccept == old(#nAccept) && #nValidate == old(#nValidate))
 //@   atreturn [no-session-without-auth] {C01} #nAccept == old(#nAccept) ==> (#nParse == old(#nParse) && #nExec == old(#nExec) && #nSession == old(#nSession) && #nZ == old(#nZ))
 //@   modifies ServeGhosts(), SharedServer(srv)
 
